@@ -117,6 +117,49 @@ class Adversary(InstructionGenerator):
         return rng.choice(links)
 
 
+class QueueDriver(InstructionGenerator):
+    """keeps a charge queue alive: sends vehicles to the (single) plug at staggered times, unplugs the charging vehicle
+    every now and then, lets waiting vehicles abandon the queue occasionally and come back later.  A pure function of
+    (seed, state)."""
+
+    def __init__(self, seed: int, emit: Optional[Callable[[Dict[str, Any]], None]] = None, label: str = "QueueDriver"):
+        self.seed, self.emit, self.label = seed, emit, label
+
+    @property
+    def name(self) -> str:
+        return self.label
+
+    def generate_instructions(self, simulation_state, environment):
+        sim = simulation_state
+        rng = random.Random(f"{self.seed}:queue:{int(sim.sim_time)}")
+        out = []
+        sid = sorted(sim.stations.keys())[0]
+        st = sim.stations[sid]
+        plugs = sorted(st.state.keys())
+        bid = sorted(sim.bases.keys())[0] if sim.bases else None
+        for v in sim.get_vehicles():
+            act = type(v.vehicle_state).__name__
+            r = rng.random()
+            plug = plugs[0] if rng.random() < 0.85 else rng.choice(plugs)
+            if act == "ChargingStation":
+                if r < 0.14:
+                    out.append(IdleInstruction(v.id))
+            elif act == "ChargeQueueing":
+                if r < 0.03 and bid:
+                    out.append(DispatchBaseInstruction(v.id, bid))
+            elif act in ("Idle", "ReserveBase"):
+                if v.geoid == st.geoid:
+                    if r < 0.5 and bid:
+                        out.append(DispatchBaseInstruction(v.id, bid))     # leave, to come back and queue later
+                elif r < 0.35:
+                    out.append(DispatchStationInstruction(v.id, sid, plug))
+        if self.emit:
+            from hv.tracer import project_instruction
+
+            self.emit({"ev": "gen", "name": self.label, "instrs": [project_instruction(i) for i in out]})
+        return self, tuple(out)
+
+
 class Wrapped(InstructionGenerator):
     """a built-in generator, unchanged, whose emissions are also reported to the tracer"""
 
